@@ -5,7 +5,6 @@ import (
 	"bytes"
 	"flag"
 	"fmt"
-	"io"
 	"os"
 	"os/exec"
 	"path/filepath"
@@ -14,6 +13,7 @@ import (
 	"strconv"
 	"strings"
 	"sync"
+	"sync/atomic"
 	"time"
 
 	"verif/c08/dbccase"
@@ -117,6 +117,35 @@ func tail(path string, max int) string {
 		data = data[len(data)-max:]
 	}
 	return string(data)
+}
+
+// crashDetail: the runtime's own words (fatal error / panic / signal line) and the first library
+// frame of the trace a dying child left on stderr.
+func crashDetail(path string) string {
+	f, err := os.Open(path)
+	if err != nil {
+		return ""
+	}
+	defer f.Close()
+	var what, where string
+	sc := bufio.NewScanner(f)
+	sc.Buffer(make([]byte, 1<<16), 1<<20)
+	for n := 0; sc.Scan() && n < 20000 && (what == "" || where == ""); n++ {
+		l := sc.Text()
+		if what == "" && (strings.HasPrefix(l, "fatal error:") || strings.HasPrefix(l, "panic:") || strings.HasPrefix(l, "runtime:") || strings.HasPrefix(l, "SIG") || strings.Contains(l, "signal ")) {
+			what = l
+		}
+		if where == "" && strings.HasPrefix(l, repoPkg) {
+			where = strings.TrimPrefix(l, repoPkg)
+			if j := strings.LastIndex(where, "("); j > 0 {
+				where = where[:j]
+			}
+		}
+	}
+	if what == "" {
+		return headLines(tail(path, 2000), 3)
+	}
+	return what + " @ " + strings.TrimLeft(where, "./")
 }
 
 func headLines(s string, n int) string {
@@ -228,7 +257,7 @@ func (b *batch) run() ([]result, error) {
 			continue
 		}
 		stderrTail := tail(errPath, 4000)
-		class, detail := clsCrash, fmt.Sprintf("child exit %d: %s", code, headLines(stderrTail, 3))
+		class, detail := clsCrash, fmt.Sprintf("child exit %d: %s", code, crashDetail(errPath))
 		switch {
 		case code == exitHang || killer == "HANG" || stalled:
 			class, detail = clsHang, fmt.Sprintf("no result after %d s", b.timeoutSec)
@@ -389,9 +418,13 @@ func runAll(seed uint64, tier, outDir string, workers int, keep, doShrink bool) 
 	}
 	outs := make([]chunkOut, nChunks)
 	batches := make([]*batch, nChunks)
+	// chunk c holds the inputs with idx % nChunks == c: expensive neighbours (same stream) spread out
 	for c := 0; c < nChunks; c++ {
-		lo, hi := c*len(ins)/nChunks, (c+1)*len(ins)/nChunks
-		batches[c] = &batch{self: self, dir: work, tag: fmt.Sprintf("%04d", c), ins: ins[lo:hi], timeoutSec: 10}
+		var part []input
+		for i := c; i < len(ins); i += nChunks {
+			part = append(part, ins[i])
+		}
+		batches[c] = &batch{self: self, dir: work, tag: fmt.Sprintf("%04d", c), ins: part, timeoutSec: 10}
 	}
 	jobs := make(chan int)
 	var wg sync.WaitGroup
@@ -410,34 +443,19 @@ func runAll(seed uint64, tier, outDir string, workers int, keep, doShrink bool) 
 	}
 	close(jobs)
 	wg.Wait()
-	var results []result
 	for c := range outs {
 		if outs[c].err != nil {
 			return outs[c].err
 		}
-		results = append(results, outs[c].res...)
+	}
+	results := make([]result, len(ins))
+	for i := range ins {
+		results[i] = outs[i%nChunks].res[i/nChunks]
 	}
 	tExec := time.Since(t0) - tGen
 
-	// cases.txt: partial files in index order
-	cf, err := os.Create(filepath.Join(outDir, "cases.txt"))
-	if err != nil {
-		return err
-	}
-	for c := range batches {
-		pf, err := os.Open(batches[c].path("cases", "txt"))
-		if err != nil {
-			cf.Close()
-			return err
-		}
-		_, err = io.Copy(cf, pf)
-		pf.Close()
-		if err != nil {
-			cf.Close()
-			return err
-		}
-	}
-	if err := cf.Close(); err != nil {
+	// cases.txt: the records of the partial files merged in index order
+	if err := mergeCases(filepath.Join(outDir, "cases.txt"), batches, len(ins)); err != nil {
 		return err
 	}
 
@@ -490,10 +508,19 @@ func runAll(seed uint64, tier, outDir string, workers int, keep, doShrink bool) 
 		if tier == "thorough" {
 			budget = 60 * time.Second
 		}
+		// signatures are shrunk in parallel, each within its own budget
+		var swg sync.WaitGroup
+		sem := make(chan struct{}, workers)
 		for _, s := range sigs {
-			f := best[s]
-			f.shrunk = shrink(self, work, f, budget)
+			swg.Add(1)
+			go func(f *failure) {
+				defer swg.Done()
+				sem <- struct{}{}
+				defer func() { <-sem }()
+				f.shrunk = shrink(self, work, f, budget)
+			}(best[s])
 		}
+		swg.Wait()
 	}
 
 	sf, err := os.Create(filepath.Join(outDir, "summary.txt"))
@@ -542,6 +569,48 @@ func runAll(seed uint64, tier, outDir string, workers int, keep, doShrink bool) 
 	return nil
 }
 
+// mergeCases: record i is the next unread record of partial file i % len(batches).
+func mergeCases(path string, batches []*batch, n int) error {
+	cf, err := os.Create(path)
+	if err != nil {
+		return err
+	}
+	defer cf.Close()
+	w := bufio.NewWriterSize(cf, 1<<20)
+	readers := make([]*bufio.Reader, len(batches))
+	for c := range batches {
+		pf, err := os.Open(batches[c].path("cases", "txt"))
+		if err != nil {
+			return err
+		}
+		defer pf.Close()
+		readers[c] = bufio.NewReaderSize(pf, 1<<20)
+	}
+	for i := 0; i < n; i++ {
+		rd := readers[i%len(batches)]
+		first := true
+		for {
+			line, err := rd.ReadBytes('\n')
+			if len(line) > 0 {
+				if first {
+					if want := fmt.Sprintf("CASE %d ", i); !bytes.HasPrefix(line, []byte(want)) {
+						return fmt.Errorf("cases of chunk %d: expected %q, found %q", i%len(batches), want, oneLine(string(line), 60))
+					}
+					first = false
+				}
+				w.Write(line)
+				if bytes.Equal(line, []byte("END\n")) {
+					break
+				}
+			}
+			if err != nil {
+				return fmt.Errorf("cases of chunk %d: record %d incomplete: %v", i%len(batches), i, err)
+			}
+		}
+	}
+	return w.Flush()
+}
+
 func sortedKeys(m map[string]int) []string {
 	var ks []string
 	for k := range m {
@@ -553,20 +622,36 @@ func sortedKeys(m map[string]int) []string {
 
 // ---- shrinking ---------------------------------------------------------------------------------
 
-var shrinkSeq int
+var shrinkSeq atomic.Int64
 
 // keeps: which candidates still show the signature.
-func keeps(self, work string, f *failure, cands [][]byte) (int, error) {
+func keeps(self, work string, f *failure, cands [][]byte, deadline time.Time) (int, error) {
+	if f.class != clsPanic && f.class != clsBadPos && len(cands) > 1 {
+		// every failing candidate costs a child (seconds for HANG and MEM): one at a time, within the budget
+		for i := range cands {
+			if time.Now().After(deadline) {
+				return -1, nil
+			}
+			j, err := keeps(self, work, f, cands[i:i+1], deadline)
+			if err != nil {
+				return -1, err
+			}
+			if j == 0 {
+				return i, nil
+			}
+		}
+		return -1, nil
+	}
 	ins := make([]input, len(cands))
 	for i, c := range cands {
 		ins[i] = input{idx: i, stream: "shrink", short: true, text: c}
 	}
-	shrinkSeq++
+	seq := shrinkSeq.Add(1)
 	timeout := 10
 	if f.class == clsHang {
 		timeout = 3
 	}
-	b := &batch{self: self, dir: work, tag: fmt.Sprintf("shrink%d", shrinkSeq), ins: ins, timeoutSec: timeout}
+	b := &batch{self: self, dir: work, tag: fmt.Sprintf("shrink%d", seq), ins: ins, timeoutSec: timeout}
 	res, err := b.run()
 	for _, ext := range [][2]string{{"inputs", "bin"}, {"log", "txt"}, {"cases", "txt"}, {"stderr", "txt"}} {
 		os.Remove(b.path(ext[0], ext[1]))
@@ -681,7 +766,7 @@ func ddmin(units [][]byte, test func([][]byte) (int, error), deadline time.Time)
 
 func shrink(self, work string, f *failure, budget time.Duration) []byte {
 	deadline := time.Now().Add(budget)
-	test := func(c [][]byte) (int, error) { return keeps(self, work, f, c) }
+	test := func(c [][]byte) (int, error) { return keeps(self, work, f, c, deadline) }
 	// the failure must reproduce on its own first
 	if j, err := test([][]byte{f.text}); err != nil || j != 0 {
 		return nil
